@@ -210,15 +210,13 @@ func checkC09(p *Prog, res *Result, tier string) {
 	checkCompactionClamp(p, r, res, "C09-R2")
 
 	// ---- R3 ----
-	sub := newResult("C01")
-	checkC01(p, sub, tier)
+	sub := p.subResult("C01", tier)
 	for _, o := range sub.Obls {
 		if strings.Contains(o.Construct, "pkg/backend/retry.") && (o.Rule == "C01-R2" || o.Rule == "C01-R3") {
 			res.add("C09-R3", o.Rule+" "+o.Construct, o.Status, o.Pos, o.Detail)
 		}
 	}
-	sub4 := newResult("C04")
-	checkC04(p, sub4, tier)
+	sub4 := p.subResult("C04", tier)
 	for _, o := range sub4.Obls {
 		if strings.Contains(o.Construct, "pkg/backend/retry.") && (o.Rule == "C04-R1" || o.Rule == "C04-R4") {
 			res.add("C09-R3", o.Rule+" "+o.Construct, o.Status, o.Pos, o.Detail)
